@@ -67,6 +67,32 @@ def rule_coords(ctx: Ctx) -> RuleResult:
 
     expect_method(f"{CV}.CompositeCanvas.trim", ["0", "-top"], "rows removed from the top")
     expect_method(f"{CV}.CompositeCanvas.pad_trim_left_right", ["left", "0"], "columns added/removed on the left")
+    # the shift of pad_trim_left_right / trim is made under exactly the conditions under which the new shards are
+    # stored: it covers padding (offset > 0) and trimming (offset < 0) alike
+    for q in (f"{CV}.CompositeCanvas.pad_trim_left_right", f"{CV}.CompositeCanvas.trim"):
+        fi = p.func(q)
+        cfg = cfg_of(fi)
+        cs = tcalls(fi)
+        stores = [n for n in cfg.nodes if isinstance(n.ast, ast.Assign) and any(isinstance(t, ast.Attribute) and t.attr == "shards" for t in n.ast.targets)]
+        if len(cs) != 1 or not stores:
+            continue
+
+        def controlling(node):
+            out = set()
+            for t in cfg.nodes:
+                if t.kind != "test":
+                    continue
+                for lab in ("T", "F"):
+                    if node not in ExcEngine._reach_without_edge(cfg, t, lab):
+                        out.add((norm(t.ast, 50), lab))
+            return out
+
+        cn = nodes_where(cfg, lambda x: x is cs[0])
+        want = set.intersection(*[controlling(n) for n in stores])
+        got = controlling(cn[0]) if cn else set()
+        rr.inst(f"{short(fi)}:shift unconditional", True, {"function": short(fi), "shift_under": sorted(f"{a}={b}" for a, b in got - want)})
+        if got - want:
+            rr.add(finding("PAIR", fi, cs[0], f"the coordinates are shifted only under {sorted(f'{a} is {b}' for a, b in got - want)} while the shards are replaced regardless: a trim (negative offset) moves the content but leaves cursor and pop-up coordinates where they were", construct=f"{fi.name}: shift conditional, shard edit not"))
     expect_method(
         f"{CV}.CompositeCanvas.pad_trim_top_bottom", ["0", "top"], "rows prepended", guard="top > 0",
         with_stmt=lambda x: isinstance(x, ast.Starred) and ast.unparse(x.value) == "self.shards",
@@ -231,6 +257,7 @@ def run(ctx: Ctx):
 
 _C = "urwid/canvas.py"
 MUTANTS = [
+    Mut("left-trim-keeps-coords", _C, "CompositeCanvas.pad_trim_left_right", "                new_top_cviews = [(0, 0, left, rows, None, blank_canvas), *top_cviews]\n", "                new_top_cviews = [(0, 0, left, rows, None, blank_canvas), *top_cviews]\n                self.coords = self.translate_coords(left, 0)\n", "PAIR|canvas.CompositeCanvas.pad_trim_left_right", also=[("\n        self.coords = self.translate_coords(left, 0)\n        self.shards = shards\n", "\n        self.shards = shards\n")]),
     Mut("delta-row-memo-hoisted", _C, "CompositeCanvas.content_delta", "        for num_rows, cviews in shards_delta(self.shards, other.shards):\n            # combine shard and shard tail\n            sbody = shard_body(cviews, shard_tail)\n\n            # output rows\n            row = []\n", "        row = []\n        for num_rows, cviews in shards_delta(self.shards, other.shards):\n            # combine shard and shard tail\n            sbody = shard_body(cviews, shard_tail)\n\n            # output rows\n", "LOOPFRESH|canvas.CompositeCanvas.content_delta"),
     Mut("trim-sides-col-not-reset", _C, "shards_trim_sides", "        new_cviews = []\n        col = 0\n        for done_rows, _content_iter, cv in sbody:", "        new_cviews = []\n        for done_rows, _content_iter, cv in sbody:", "LOOPFRESH|canvas.shards_trim_sides", error_ok=True),
     Mut("trim-sides-skip-without-advance", _C, "shards_trim_sides", "            if done_rows or next_col <= left or col >= right:\n                col = next_col\n                continue", "            if done_rows:\n                continue\n            if next_col <= left or col >= right:\n                col = next_col\n                continue", "ACCUM|canvas.shards_trim_sides"),
